@@ -48,6 +48,10 @@ def uniqAux : List Bytes → List Bytes → List Bytes
 
 def uniq (s : List Bytes) : List Bytes := uniqAux [] s
 
+/-- what the CALLER's slice holds after `sliceUniqMap` ran on it (it compacts in place: `s[j] = v`):
+the unique entries in first-occurrence order, then the old entries of the remaining positions -/
+def uniqInPlace (l : List Bytes) : List Bytes := uniq l ++ l.drop (uniq l).length
+
 section
 variable {S : Type} [Add S] [Sub S] [Mul S] [Neg S] [Zero S] [One S] [Inv S] [IntCast S] [DecidableEq S]
 variable {P : Type} [Add P] [Zero P] [SMul S P] [DecidableEq P]
